@@ -299,3 +299,177 @@ Proof.
     { unfold H. rewrite skipn_rev, firstn_firstn, firstn_length. f_equal. f_equal. lia. }
     rewrite ES. ring.
 Qed.
+
+(* ---------------------------------------------------------------------------------------------- *)
+(* selection (un-padding) commutes with the pointwise stages *)
+Lemma zipw_nil_r f l : zipw f l [] = [].
+Proof. destruct l; reflexivity. Qed.
+Lemma select_nil m : select m [] = [].
+Proof. destruct m as [|[|] m]; reflexivity. Qed.
+Lemma select_map m f l : select m (map f l) = map f (select m l).
+Proof.
+  revert l; induction m as [|b m IH]; intros [|a l]; simpl; try reflexivity.
+  destruct b; simpl; rewrite IH; reflexivity.
+Qed.
+Lemma select_zipw m f l1 l2 : select m (zipw f l1 l2) = zipw f (select m l1) (select m l2).
+Proof.
+  revert l1 l2; induction m as [|b m IH]; intros [|a l1] [|c l2]; simpl; try reflexivity.
+  - destruct b; rewrite ?zipw_nil_r; reflexivity.
+  - destruct b; simpl; rewrite IH; reflexivity.
+Qed.
+Lemma select_false p C : select (repeat false p) C = [].
+Proof. revert C; induction p; intros [|c C]; simpl; auto. Qed.
+Lemma select_mid p nt p2 A B C : length A = p -> length B = nt ->
+  select (repeat false p ++ repeat true nt ++ repeat false p2) (A ++ B ++ C) = B.
+Proof.
+  revert A; induction p; intros [|a A] HA HB; simpl in HA; try lia.
+  - simpl. clear HA. revert B HB; induction nt; intros [|b B] HB; simpl in HB; try lia.
+    + simpl. apply select_false.
+    + simpl. f_equal. apply IHnt. lia.
+  - simpl. apply IHp; [lia|assumption].
+Qed.
+Lemma rf_mask_S p nt p2 : rf_mask (S p) nt p2 = repeat false p ++ repeat true nt ++ repeat false p2.
+Proof. reflexivity. Qed.
+
+(* ---------------------------------------------------------------------------------------------- *)
+(* Proper-ness of the stages w.r.t. leq *)
+Lemma firF_leq alpha n a b : leq a b -> firF alpha n a == firF alpha n b.
+Proof. intros H. rewrite !firF_spec. rewrite H. reflexivity. Qed.
+Lemma fir_leq alpha n x1 x2 : leq x1 x2 -> leq (lowpass_fir alpha n x1) (lowpass_fir alpha n x2).
+Proof. intros H. rewrite !fir_as_scan. apply leq_scan; [apply firF_leq|reflexivity|assumption]. Qed.
+Lemma abs_leq x1 x2 : leq x1 x2 -> leq (map Qabs x1) (map Qabs x2).
+Proof. apply leq_map. intros a b E. rewrite E. reflexivity. Qed.
+Lemma diffq_leq l1 l2 : leq l1 l2 -> leq (diffq l1) (diffq l2).
+Proof.
+  induction 1 as [|a b l1 l2 Hab Hl IH]; [constructor|].
+  destruct Hl as [|c d l1' l2' Hcd Hl']; [constructor|].
+  cbn [diffq] in *. constructor; [rewrite Hab, Hcd; reflexivity|exact IH].
+Qed.
+Lemma length_diffq a l : length (diffq (a :: l)) = length l.
+Proof. revert a; induction l as [|b l IH]; intros a; [reflexivity|].
+  change (diffq (a :: b :: l)) with ((b - a) :: diffq (b :: l)). cbn [length]. rewrite IH. reflexivity. Qed.
+
+Lemma map_zeros f n : (f 0 == 0) -> leq (map f (zeros n)) (zeros n).
+Proof. intros Hf; induction n; [constructor|]. cbn [zeros repeat map]. constructor; [exact Hf|exact IHn]. Qed.
+Lemma map_abs_zeros n : map Qabs (zeros n) = zeros n.
+Proof. induction n; [reflexivity|]. cbn [zeros repeat map]. change (Qabs 0) with 0. f_equal. exact IHn. Qed.
+
+(* the padded slew rate is  0^p ++ slew(0 :: g) ++ tail *)
+Lemma diffq_app_prefix a l Z : exists T, diffq (a :: l ++ Z) = diffq (a :: l) ++ T.
+Proof.
+  revert a; induction l as [|b l IH]; intros a.
+  - exists (diffq (a :: Z)). reflexivity.
+  - destruct (IH b) as [T HT]. exists T. cbn [app diffq] in *. rewrite HT. reflexivity.
+Qed.
+Lemma diffq_pad p l Z : exists T, leq (diffq (zeros (S p) ++ l ++ Z)) (zeros p ++ diffq (0 :: l) ++ T).
+Proof.
+  destruct (diffq_app_prefix 0 l Z) as [T HT]. exists T.
+  induction p.
+  - cbn [zeros repeat app]. rewrite HT. reflexivity.
+  - change (zeros (S (S p)) ++ l ++ Z) with (0 :: (zeros (S p) ++ l ++ Z)).
+    change (zeros (S p) ++ l ++ Z) with (0 :: (zeros p ++ l ++ Z)) in *.
+    cbn [diffq]. change (zeros (S p) ++ diffq (0 :: l) ++ T) with (0 :: (zeros p ++ diffq (0 :: l) ++ T)).
+    constructor; [ring|exact IHp].
+Qed.
+Lemma dgdt_pad dt p p2 l : exists T,
+  leq (dgdt dt (pad (S p) p2 l)) (zeros p ++ dgdt dt (0 :: l) ++ T).
+Proof.
+  destruct (diffq_pad p l (zeros p2)) as [T HT]. exists (map (fun d => d / dt) T).
+  unfold dgdt, pad. etransitivity; [apply leq_map with (g := fun d => d / dt); [|exact HT]|].
+  - intros a b E. rewrite E. reflexivity.
+  - rewrite !map_app. apply leq_app; [|reflexivity].
+    apply map_zeros. unfold Qdiv. ring.
+Qed.
+
+(* core: the causal FIR does not see leading zeros nor anything that follows *)
+Lemma fir_pad_invisible alpha n p p2 d T :
+  leq (select (repeat false p ++ repeat true (length d) ++ repeat false p2)
+              (lowpass_fir alpha n (zeros p ++ d ++ T)))
+      (lowpass_fir alpha n d).
+Proof.
+  rewrite !fir_as_scan. rewrite scan_app, scan_app.
+  rewrite select_mid.
+  - change (rev (zeros p) ++ []) with ([] ++ (rev (zeros p) ++ [])).
+    apply scan_hist_pad. intros h. rewrite !firF_spec. rewrite hsumn_app_zeros; [reflexivity|].
+    rewrite app_nil_r. apply Forall_rev. apply Forall_zeros.
+  - rewrite length_scan. apply length_zeros.
+  - rewrite length_scan. reflexivity.
+Qed.
+
+(* ---------------------------------------------------------------------------------------------- *)
+(* un-padding of the whole per-axis chain *)
+Definition midmask (p nt p2 : nat) : list bool := repeat false p ++ repeat true nt ++ repeat false p2.
+
+Lemma Qmult_leq c l1 l2 : leq l1 l2 -> leq (map (Qmult c) l1) (map (Qmult c) l2).
+Proof. apply leq_map. intros a b E. rewrite E. reflexivity. Qed.
+
+Lemma branch_unpad h dtms b n p p2 d T X :
+  leq X (zeros p ++ d ++ T) ->
+  leq (select (midmask p (length d) p2) (branch_out lowpass_fir h dtms b n X))
+      (branch_out lowpass_fir h dtms b n d).
+Proof.
+  intros HX. unfold branch_out. rewrite select_map. apply Qmult_leq.
+  set (alpha := alpha_of dtms (hw_tau h (b_tau b))).
+  assert (core : forall X' d' T', length d' = length d -> leq X' (zeros p ++ d' ++ T') ->
+            leq (select (midmask p (length d) p2) (lowpass_fir alpha n X')) (lowpass_fir alpha n d')).
+  { intros X' d' T' Hl HX'. rewrite <- Hl.
+    etransitivity; [apply leq_select, fir_leq, HX'|]. apply fir_pad_invisible. }
+  assert (inner : leq (select (midmask p (length d) p2)
+                        (lowpass_fir alpha n (if b_abs_in b then map Qabs X else X)))
+                      (lowpass_fir alpha n (if b_abs_in b then map Qabs d else d))).
+  { destruct (b_abs_in b).
+    - apply core with (T' := map Qabs T); [apply map_length|].
+      etransitivity; [apply abs_leq, HX|]. rewrite !map_app, map_abs_zeros. reflexivity.
+    - apply core with (T' := T); [reflexivity|exact HX]. }
+  destruct (b_abs_out b).
+  - rewrite select_map. apply abs_leq. exact inner.
+  - exact inner.
+Qed.
+
+Lemma stim_sum_unpad h dtms bs : forall taps p p2 d T X,
+  leq X (zeros p ++ d ++ T) ->
+  leq (select (midmask p (length d) p2) (stim_sum lowpass_fir h dtms bs taps X))
+      (stim_sum lowpass_fir h dtms bs taps d).
+Proof.
+  induction bs as [|b bs IH]; intros taps p p2 d T X HX; cbn [stim_sum].
+  - apply leq_length in HX. rewrite HX, !app_length, length_zeros, !zeros_app.
+    unfold midmask. rewrite select_mid by apply length_zeros. reflexivity.
+  - unfold ladd. rewrite select_zipw. apply leq_zipw.
+    + intros a b0 c d0 E1 E2. rewrite E1, E2. reflexivity.
+    + eapply branch_unpad; eassumption.
+    + eapply IH; eassumption.
+Qed.
+
+Lemma length_dgdt0 dt gamma g : length (dgdt dt (0 :: to_tesla gamma g)) = length g.
+Proof. unfold dgdt, to_tesla. rewrite map_length, length_diffq, map_length. reflexivity. Qed.
+
+Lemma unpad_indices h gamma dt p p2 taps g :
+  leq (pns_axis lowpass_fir h gamma dt (S p) p2 taps g) (pns_direct lowpass_fir h gamma dt taps g).
+Proof.
+  unfold pns_axis, pns_direct, pns_model. rewrite rf_mask_S.
+  destruct (dgdt_pad dt p p2 (to_tesla gamma g)) as [T HT].
+  apply Qmult_leq. rewrite select_map.
+  apply leq_map; [intros a b E; rewrite E; reflexivity|].
+  rewrite <- (length_dgdt0 dt gamma g). apply (stim_sum_unpad h _ branches taps p p2 _ T). exact HT.
+Qed.
+
+(* what the slew-rate samples are: (g_k - g_{k-1}) / gamma / dt with g_{-1} = 0 *)
+Lemma nth_map0 (f : Q -> Q) l k : (k < length l)%nat -> nth k (map f l) 0 = f (nth k l 0).
+Proof. revert k; induction l; intros [|k] Hk; simpl in *; try lia; auto. apply IHl; lia. Qed.
+Lemma nth_diffq a l k : (k < length l)%nat -> nth k (diffq (a :: l)) 0 = nth k l 0 - nth k (a :: l) 0.
+Proof.
+  revert a k; induction l as [|b l IH]; intros a k Hk; simpl in Hk; [lia|].
+  change (diffq (a :: b :: l)) with ((b - a) :: diffq (b :: l)).
+  destruct k as [|k]; [reflexivity|]. cbn [nth]. rewrite IH by lia. reflexivity.
+Qed.
+Lemma slew_samples dt gamma g k : (k < length g)%nat ->
+  nth k (dgdt dt (0 :: to_tesla gamma g)) 0
+  == (nth k g 0 - match k with O => 0 | S j => nth j g 0 end) / gamma / dt.
+Proof.
+  intros Hk. unfold dgdt. rewrite nth_map0 by (rewrite length_diffq; unfold to_tesla; rewrite map_length; exact Hk).
+  rewrite nth_diffq by (unfold to_tesla; rewrite map_length; exact Hk).
+  unfold to_tesla. rewrite nth_map0 by exact Hk.
+  destruct k as [|k]; cbn [nth].
+  - unfold Qdiv. ring.
+  - rewrite nth_map0 by lia. unfold Qdiv. ring.
+Qed.
